@@ -6,6 +6,7 @@ subset x conversion route; every dtype spelling through the dtype helpers;
 dtype of every population a sampler builds, restores or returns; flow outputs
 consumed in every sample namespace."""
 import itertools
+import pickle
 
 import numpy as np
 
@@ -19,7 +20,7 @@ RULE = ("full product: class {BaseSamples,Samples,SMCSamples} x source ns x targ
         "{float32,float64} x requested dtype {None,'float32','float64', native object of the target} x field subset "
         "{none, all, L+pi, q only} x route {to_namespace, to_numpy, from_samples(xp=), sample_posterior(xp=)}; dtype helpers "
         "over 14 spellings x 3 namespaces; sampler populations (initial, every stored, restored, final) for requested dtype x "
-        "namespace x sampler x {wide prior, tight prior whose rejected proposal draws make the initial population a concatenation of several batches}; JAX sources with JAX's default 64-bit-disabled configuration (fresh interpreter) into torch/numpy with a float64 request; zuko/flowjax outputs into Samples(xp=ns). non-trivial = cross-namespace or dtype-changing case")
+        "namespace x sampler (fresh, resumed, resumed by a sampler asked for the other precision - from the first and from the last checkpoint -, and the population handed back by the restore call) x {wide prior, tight prior whose rejected proposal draws make the initial population a concatenation of several batches}; JAX sources with JAX's default 64-bit-disabled configuration (fresh interpreter) into torch/numpy with a float64 request; zuko/flowjax outputs into Samples(xp=ns). non-trivial = cross-namespace or dtype-changing case")
 ASSUMPTIONS = [
     "values 0.1*(i+1)+j style floats that are not exactly representable in float32, so that a silent narrowing changes values",
     "stub kernels for the sampler-population part",
@@ -247,13 +248,15 @@ def run_sampler_dtypes(arg):
     want = dt if dt is not None else ("float32" if ns == "torch" else "float64")
 
     def inspect_run(R, stage):
+        nonlocal want
         if R.exception is not None:
             r.violation(f"C15/sampler/{sampler}/raises/{R.exception[0]}/{R.exception[1] if len(R.exception) > 2 else ''}/{ns}/{dt}", R.exception, dict(case, stage=stage))
             return False
         pops = [("final", R.result["final"])] + [(f"history[{i}]", s) for i, s in enumerate(R.history["sample_history"])]
         for name, s in pops:
             xs = np.asarray(s["x"])
-            if want == "float64" and xs.size >= 4 and np.all(xs.astype(np.float32).astype(np.float64) == xs):
+            # (not for a run that legitimately continues from a float32 checkpoint)
+            if want == "float64" and "float32-checkpoint" not in stage and xs.size >= 4 and np.all(xs.astype(np.float32).astype(np.float64) == xs):
                 # every coordinate is exactly a float32 number: the population went through a narrower width on the way
                 which = "initial" if name == "history[0]" else "final" if name == "final" else "iteration"
                 r.violation(f"C15/sampler/{sampler}/population-passed-through-float32/{which}/{stage}/{ns}",
@@ -265,7 +268,7 @@ def run_sampler_dtypes(arg):
                 got = str(s[f].dtype)
                 if got != want:
                     which = "initial" if name == "history[0]" else "final" if name == "final" else "iteration"
-                    r.violation(f"C15/sampler/{sampler}/population-dtype/{which}/{stage}/{ns}/requested-{dt}/got-{got}",
+                    r.violation(f"C15/sampler/{sampler}/population-dtype/{which}/{stage}/{ns}/requested-{want}/got-{got}",
                                 {"population": name, "field": f, "got": got, "want": want}, dict(case, stage=stage))
                     return True
         return True
@@ -286,6 +289,35 @@ def run_sampler_dtypes(arg):
         r2 = rh.run(cfg, resume_from=R.sink[0][1])
         r.case(explorer.digest([case, "resumed"]), nontrivial=True)
         inspect_run(r2, "resumed")
+        # a checkpoint written in one precision, resumed by a sampler that was asked for the other one: every population
+        # the resumed sampler restores, builds or returns has the precision requested now
+        other_dt = "float64" if dt == "float32" else "float32"
+        want_saved = want
+        want = other_dt
+        r3 = rh.run(dict(cfg, dtype=other_dt), resume_from=R.sink[0][1])
+        r.case(explorer.digest([case, "resumed-with-other-dtype"]), nontrivial=True)
+        if r3.exception is None:
+            # the history carried by the checkpoint keeps the populations stored before the interruption as they were
+            n_before = len(pickle.loads(R.sink[0][1])["history"].sample_history)
+            r3.history["sample_history"] = r3.history["sample_history"][n_before:]
+        inspect_run(r3, f"resumed-with-{other_dt}-from-{dt}-checkpoint")
+        # ... from the last checkpoint too (nothing is left to do: the restored population is the one returned)
+        r4 = rh.run(dict(cfg, dtype=other_dt, n_final=None), resume_from=R.sink[-1][1])
+        r.case(explorer.digest([case, "resumed-with-other-dtype-from-last"]), nontrivial=True)
+        if r4.exception is None:
+            r4.history["sample_history"] = []
+        inspect_run(r4, f"resumed-with-{other_dt}-from-last-{dt}-checkpoint")
+        # ... and the population handed back by the restore call itself
+        try:
+            restored = r3.sampler.restore_from_checkpoint(R.sink[0][1])[0]
+            got = str(tonp(restored.x).dtype)
+            if got != other_dt:
+                r.violation(f"C15/sampler/{sampler}/restored-population-dtype/{ns}/requested-{other_dt}/got-{got}", {"checkpoint": dt}, case)
+        except Exception as e:
+            from env import exc_site
+
+            r.violation(f"C15/sampler/{sampler}/restore-raises/{type(e).__name__}/{exc_site(e)}", repr(e)[:200], case)
+        want = want_saved
     if problem != "none":
         r.sample(case)
         return r.dump()
